@@ -76,6 +76,18 @@ CLAIMED = {
         "of the code under test.",
         "Hypothesis soup + grammar round-trip + exhaustive small forests + atheris; round-trip / invariant / brute-force reference oracles",
     ),
+    "C20": (
+        "Hypothesis documents in which every raw-capable construct (HTML block / inline in several contexts, raw "
+        "directive, raw-derived roles from MyST and from eval-rst, hard break, strikethrough, HTML substitution, "
+        "html_admonition) carries a sentinel tag and every file-reading construct (include plain/literal/code/with "
+        "raw HTML inside, raw :file:/:url:, csv-table :file:/:url:, the rST spellings inside eval-rst) names a "
+        "sentinel file, nested 0-3 deep in 8 container kinds, each published under the 4 combinations of raw_enabled "
+        "x file_insertion_enabled; every construct x wrapper exhaustively; oracle: no raw node / no sentinel in tree "
+        "or html5 output, no open() of a sentinel file (audit hook), a warning per refusal, markers intact and "
+        "identically placed in all 4 runs, positive control with both on; bounded search.",
+        "docutils front end; file reads observed via the CPython 'open' audit event; image :scale: needs PIL (absent).",
+        "Hypothesis + exhaustive construct x wrapper enumeration; invariant oracle over 4 settings runs with audit-hook fault observation and positive control",
+    ),
 }
 
 checks = []
